@@ -130,6 +130,21 @@ def token_pool(decl):
     for combo in itertools.product(letters, repeat=2):
         kinds = "".join(sorted(set(c[1] for c in combo)))
         add("bundle-eq-" + kinds, b"-" + b"".join(c[0] for c in combo) + b"=val")
+    # long bundles: counts and letter checks beyond any small fixed-size buffer or narrow counter
+    if tl:
+        t = tl[0]
+        for n in (9, 17, 64, 65, 128, 256, 300):
+            add("bundle-long-T", b"-" + t * n)
+        for n in (64, 127, 256):
+            add("bundle-long-TU", b"-" + t * n + UNDECL_LETTER)
+        add("bundle-long-TU", b"-" + UNDECL_LETTER + t * 70)
+        for l in (ol[:1] + ml[:1]):
+            add("bundle-long-TO", b"-" + t * 64 + l)
+            add("bundle-long-TO", b"-" + t * 200 + l)
+        if len(tl) > 1:
+            add("bundle-long-TT", b"-" + t * 64 + tl[1])
+            add("bundle-long-TT", b"-" + t * 130 + tl[1] * 130)
+            add("bundle-long-TT", b"-" + (t + tl[1]) * 40)
     add("value", b"x")
     add("value", b"file.txt")
     add("value-empty", b"")
